@@ -14,7 +14,7 @@ from __future__ import annotations
 import random
 from typing import Any
 
-from harness.common import Part, lean_batch_parallel, pmap
+from harness.common import Part, lean_batch, pmap
 
 NAME_POOL = ["a", "b", "x", "val_0", "val_1", "val_2", "w", ""]
 NODE_NAME_POOL = ["n0", "node_Add_0", "node_Add_1", "node_Mul_0", "k"]
@@ -204,6 +204,33 @@ class Real:
             ns = self.Ns(op["ns"])
             arg = ns[0] if op.get("single") and len(ns) == 1 else ns
             self.graphs[op["g"]].remove(arg, safe=op["safe"])
+        elif k == "rauwMany":
+            import onnx_ir.convenience as conv
+
+            vs, rs = self.Vs(op["vs"]), self.Vs(op["rs"])
+            if op.get("single") and len(vs) == 1 and len(rs) == 1:
+                conv.replace_all_uses_with(vs[0], rs[0], replace_graph_outputs=op["rgo"])
+            else:
+                conv.replace_all_uses_with(vs, rs, replace_graph_outputs=op["rgo"])
+        elif k == "renameValues":
+            import onnx_ir.convenience as conv
+
+            vs = self.Vs(op["vs"])
+            if op.get("single") and len(vs) == 1 and len(op["names"]) == 1:
+                conv.rename_values(vs[0], op["names"][0])
+            else:
+                conv.rename_values(vs, list(op["names"]))
+        elif k == "replaceNodesAndValues":
+            import onnx_ir.convenience as conv
+
+            conv.replace_nodes_and_values(
+                self.graphs[op["g"]],
+                self.nodes[op["ip"]],
+                self.Ns(op["oldNodes"]),
+                self.Ns(op["newNodes"]),
+                self.Vs(op["oldVals"]),
+                self.Vs(op["newVals"]),
+            )
         elif k == "sort":
             import onnx_ir.traversal as tr
 
@@ -583,6 +610,9 @@ class Gen:
             (self.membership, 6 if ng and nn else 0),
             (self.remove, 2 if ng and nn else 0),
             (self.sort, 1 if ng and nn else 0),
+            (self.rauw_many, 2),
+            (self.rename_values, 3),
+            (self.replace_nodes_and_values, 2 if ng and nn else 0),
         ]
         fns, weights = zip(*[(f, x) for f, x in w if x > 0])
         return rng.choices(fns, weights)[0]()
@@ -792,6 +822,55 @@ class Gen:
             op["single"] = True
         return op
 
+    def rauw_many(self):
+        k = self.rng.choice([1, 2, 2, 3])
+        vs = [self.any_val() for _ in range(k)]
+        rs = [self.any_val() for _ in range(k if not self.invalid() else self.rng.choice([k, k + 1, max(k - 1, 0)]))]
+        op = {"op": "rauwMany", "vs": vs, "rs": rs, "rgo": self.rng.random() < 0.6}
+        if len(vs) == 1 and len(rs) == 1 and self.rng.random() < 0.5:
+            op["single"] = True
+        return op
+
+    def rename_values(self):
+        rng, real = self.rng, self.real
+        k = rng.choice([1, 2, 2, 3, 4])
+        inits = [real.vid[id(v)] for g in real.graphs for v in g.initializers.values()]
+        vs = []
+        for _ in range(k):
+            vs.append(rng.choice(inits) if inits and rng.random() < 0.6 else self.any_val())
+        keys = [k_ for g in real.graphs for k_ in g.initializers.keys()]
+        pool = NAME_POOL + keys + keys
+        names = [rng.choice(pool) for _ in range(k if rng.random() < 0.9 else k + 1)]
+        if len(vs) == len(names) and len(vs) >= 2 and rng.random() < 0.3:
+            # a permutation of current names (swaps / cycles)
+            cur = [real.vals[v].name for v in vs]
+            if all(isinstance(c, str) for c in cur):
+                names = cur[1:] + cur[:1]
+        op = {"op": "renameValues", "vs": vs, "names": names}
+        if len(vs) == 1 and len(names) == 1 and rng.random() < 0.5:
+            op["single"] = True
+        return op
+
+    def replace_nodes_and_values(self):
+        rng, real = self.rng, self.real
+        g = rng.randrange(len(real.graphs))
+        G = real.graphs[g]
+        inside = [real.nid[id(n)] for n in G]
+        ip = rng.choice(inside) if inside and not self.invalid() else self.node()
+        old_nodes = [rng.choice(inside) if inside and not self.invalid() else self.node() for _ in range(rng.choice([0, 1, 1, 2]))]
+        new_nodes = []
+        for _ in range(rng.choice([0, 1, 1, 2])):
+            x = self.node() if self.invalid() else self.addable_node(g)
+            new_nodes.append(self.node() if x is None else x)
+        old_vals = [real.vid[id(o)] for n in old_nodes for o in real.nodes[n].outputs][:2] or [self.any_val()]
+        new_vals = [real.vid[id(o)] for n in new_nodes for o in real.nodes[n].outputs][: len(old_vals)]
+        while len(new_vals) < len(old_vals) and rng.random() < 0.8:
+            new_vals.append(self.any_val())
+        return {
+            "op": "replaceNodesAndValues", "g": g, "ip": ip, "oldNodes": old_nodes, "newNodes": new_nodes,
+            "oldVals": old_vals, "newVals": new_vals,
+        }
+
     def sort(self):
         g = self.rng.randrange(len(self.real.graphs))
         if not nesting_acyclic(self.real, self.real.graphs[g]):
@@ -854,7 +933,67 @@ def shape_of(op: dict, real: Real) -> str:
         return op["m"] + (":multi" if op["m"] == "update" and len(op["kvs"]) > 1 else "")
     elif k in ("insertAfter", "insertBefore", "remove"):
         return "via-node" if op.get("via") else "plain"
+    elif k == "rauwMany":
+        return "multi" if len(op["vs"]) > 1 else "single"
+    elif k == "renameValues":
+        return "multi" if len(op["vs"]) > 1 else "single"
     return "+".join(tags) or "plain"
+
+
+def fail_pos(op: dict, real: Real) -> str:
+    """For a multi-element call: position of the first element the call must reject (evaluated on the
+    state before the call; evidence only)."""
+    k = op["op"]
+    V, Nn, Gs = real.vals, real.nodes, real.graphs
+
+    def first(xs, bad):
+        for i, x in enumerate(xs):
+            if bad(x):
+                return str(i)
+        return "-"
+
+    if k == "io" and op["m"] in ("extend", "setSlice"):
+        G = Gs[op["g"]]
+        inp = op["kind"] == "inp"
+        pos = first(op["vs"], lambda i: V[i]._graph not in (None, G) or (inp and V[i].producer() is not None))
+        return pos if pos != "-" else "size/step"
+    if k in ("extend", "insertAfter", "insertBefore"):
+        G = Gs[op["g"]]
+        if k != "extend" and Nn[op["a"]].graph is not G:
+            return "anchor"
+        return first(op["ns"], lambda i: Nn[i].graph not in (None, G))
+    if k == "remove":
+        G = Gs[op["g"]]
+        pos = first(op["ns"], lambda i: Nn[i].graph is not G)
+        return pos if pos != "-" else "unsafe"
+    if k == "newGraph":
+        for grp, bad in (
+            ("inputs", lambda i: V[i]._graph is not None or V[i].producer() is not None),
+            ("outputs", lambda i: V[i]._graph is not None),
+            ("inits", lambda i: not V[i].name or V[i]._graph is not None or V[i].producer() is not None),
+            ("nodes", lambda i: Nn[i].graph is not None),
+        ):
+            pos = first(op[grp], bad)
+            if pos != "-":
+                return f"{grp}[{pos}]"
+        return "-"
+    if k == "init" and op["m"] == "update":
+        G = Gs[op["g"]]
+        pending: dict[int, str] = {}
+        for i, (key, v) in enumerate(op["kvs"]):
+            nm = V[v].name or pending.get(v)
+            if key == "" or (nm and nm != key) or V[v].producer() is not None or V[v]._graph not in (None, G):
+                return str(i)
+            if not V[v].name:
+                pending.setdefault(v, key)
+        return "-"
+    if k == "rauwMany":
+        if len(op["vs"]) != len(op["rs"]):
+            return "length"
+        return first(list(zip(op["vs"], op["rs"])), lambda p: V[p[0]].is_graph_output() and not op["rgo"])
+    if k == "renameValues":
+        return "length" if len(op["vs"]) != len(op["names"]) else "-"
+    return ""
 
 
 # --------------------------------------------------------------------------- history runner
@@ -876,8 +1015,11 @@ def run_one(rng: random.Random, length: int, part: Part, fixed_ops: list | None 
         shape = shape_of(op, real)
         label = op["op"] + ("." + op["kind"] + "." + op["m"] if op["op"] == "io" else "." + op["m"] if op["op"] == "init" else "")
         before = deep_snapshot(real)
+        pos = fail_pos(op, real)
         o, kind, mop = real.apply(op)
         part.count(f"op={label}:{o}")
+        if o == "raised" and pos:
+            part.count(f"raisedAt={label}:k={pos}")
         failed = False
         viol = wf_oracle(real)
         if viol:
@@ -915,13 +1057,14 @@ def _worker(args):
     for _ in range(count):
         length = rng.choice([3, 6, 10, 20, 30, maxlen])
         hist.append(run_one(rng, min(length, maxlen), part, p_invalid=p_invalid))
-    return part, hist
+    compare_with_model(part, hist)
+    return part
 
 
 def compare_with_model(ctx, hists: list[dict]) -> None:
     """Send the histories to the Lean model and diff outcome + state delta after every step."""
     reqs = [{"m": "kernel.run", "ops": h["mops"]} for h in hists]
-    outs = lean_batch_parallel(reqs)
+    outs = lean_batch(reqs)
     for h, out in zip(hists, outs):
         ops = h["ops"]
         nontrivial = any(o["op"] not in ("newValue", "setConst") for o in ops)
@@ -965,13 +1108,144 @@ def split_failures(part: Part, prop: str) -> None:
 def run_random(ctx, prop: str, n_hist: int, maxlen: int, p_invalid: float = 0.3, procs: int = 16) -> None:
     per = max(1, n_hist // (procs * 4))
     jobs = [(ctx.rng.getrandbits(48), per, maxlen, p_invalid) for _ in range((n_hist + per - 1) // per)]
-    results = pmap(_worker, jobs, procs)
-    hists = []
-    for part, hs in results:
+    for part in pmap(_worker, jobs, procs):
         split_failures(part, prop)
         ctx.merge(part)
-        hists += hs
-    compare_with_model(ctx, hists)
+
+
+# --------------------------------------------------------------------------- exhaustive small scope
+
+PRELUDE = [
+    {"op": "newValue", "name": "a"},  # v0
+    {"op": "newValue", "name": "b"},  # v1
+    {"op": "newValue", "name": None},  # v2
+    {"op": "setConst", "v": 1},
+    {"op": "newNode", "opType": "Add", "name": None, "inputs": [0, 1], "numOutputs": None, "outputs": None, "graph": None},  # n0 -> v3
+    {"op": "newNode", "opType": "Mul", "name": "m", "inputs": [3, 0], "numOutputs": None, "outputs": None, "graph": None},  # n1 -> v4
+    {"op": "newNode", "opType": "Id", "name": None, "inputs": [4], "numOutputs": None, "outputs": None, "graph": None},  # n2 -> v5
+    {"op": "newGraph", "inputs": [0], "outputs": [4], "nodes": [0, 1], "inits": [1]},  # g0
+    {"op": "newGraph", "inputs": [], "outputs": [], "nodes": [2], "inits": []},  # g1
+]
+
+
+def small_alphabet(reduced: bool = False) -> list[dict]:
+    """Calls over the universe built by PRELUDE (6 values, 3 nodes, 2 graphs): every public mutator with
+    a valid and an invalid argument choice."""
+    A: list[dict] = []
+
+    def io(g, kind, m, **kw):
+        A.append({"op": "io", "g": g, "kind": kind, "m": m, **kw})
+
+    def init(g, m, **kw):
+        A.append({"op": "init", "g": g, "m": m, **kw})
+
+    for n, idx, v in [(0, 0, None), (0, 0, 2), (1, 1, 3), (1, 2, 2), (2, -1, 2)]:
+        A.append({"op": "replaceInput", "n": n, "idx": idx, "v": v})
+    A += [{"op": "resizeInputs", "n": 1, "k": k} for k in (-1, 1, 3)]
+    A += [{"op": "resizeOutputs", "n": 0, "k": k} for k in (0, 2)]
+    for v, r in [(3, 2), (4, 2), (4, 5)]:
+        for rgo in (False, True):
+            A.append({"op": "rauw", "v": v, "r": r, "rgo": rgo})
+    for kind in ("inp", "out"):
+        io(0, kind, "append", v=2)
+        io(0, kind, "append", v=5)
+        io(0, kind, "extend", vs=[2, 4])
+        io(0, kind, "insert", i=0, v=2)
+        io(0, kind, "pop", i=-1)
+        io(0, kind, "setItem", i=0, v=2)
+        io(0, kind, "setSlice", start=None, stop=None, step=None, vs=[2, 2])
+        io(0, kind, "delItem", i=0)
+        io(0, kind, "clear")
+        if not reduced:
+            io(0, kind, "pop", i=5)
+            io(0, kind, "remove", v=0)
+            io(0, kind, "remove", v=4)
+            io(0, kind, "setItem", i=0, v=5)
+            io(0, kind, "setItem", i=3, v=2)
+            io(0, kind, "setSlice", start=0, stop=1, step=None, vs=[2, 3])
+            io(0, kind, "setSlice", start=None, stop=None, step=2, vs=[2, 2])
+            io(0, kind, "delSlice", start=None, stop=None, step=None)
+            io(0, kind, "delSlice", start=None, stop=None, step=0)
+            io(0, kind, "reverse")
+            io(0, kind, "iadd", vs=[2])
+            io(0, kind, "imul", k=2)
+    io(1, "out", "append", v=4)
+    io(1, "inp", "append", v=0)
+    io(1, "inp", "append", v=2)
+    init(0, "setItem", key="c", v=2)
+    init(0, "setItem", key="b", v=2)
+    init(0, "delItem", key="b")
+    init(0, "add", v=2)
+    init(0, "add", v=0)
+    init(0, "popitem")
+    init(0, "update", kvs=[["c", 2], ["d", 2]])
+    init(1, "setItem", key="b", v=1)
+    if not reduced:
+        init(0, "setItem", key="b", v=1)
+        init(0, "pop", key="zz")
+        init(0, "clear")
+        init(0, "update", kvs=[["c", 2]], ior=True)
+        init(0, "setdefault", key="b", v=2)
+        init(0, "setdefault", key="c", v=2)
+        init(0, "register", v=1)
+        init(0, "register", v=0)
+    for v, s_ in [(1, "a"), (1, None), (1, ""), (2, "b"), (0, "b"), (1, "q")]:
+        A.append({"op": "setName", "v": v, "s": s_})
+    A += [
+        {"op": "append", "g": 1, "n": 0},
+        {"op": "append", "g": 0, "n": 0},
+        {"op": "extend", "g": 0, "ns": [1, 0]},
+        {"op": "extend", "g": 0, "ns": [0, 2]},
+        {"op": "insertAfter", "g": 0, "a": 0, "ns": [1]},
+        {"op": "insertBefore", "g": 0, "a": 0, "ns": [1], "via": "node"},
+        {"op": "insertAfter", "g": 0, "a": 2, "ns": [1]},
+        {"op": "insertBefore", "g": 1, "a": 2, "ns": [0]},
+        {"op": "remove", "g": 0, "ns": [1], "safe": True},
+        {"op": "remove", "g": 0, "ns": [1], "safe": False, "single": True},
+        {"op": "remove", "g": 0, "ns": [0, 1], "safe": True},
+        {"op": "remove", "g": 1, "ns": [0], "safe": False},
+        {"op": "sort", "g": 0},
+        {"op": "newNode", "opType": "Id", "name": None, "inputs": [3], "numOutputs": None, "outputs": [2], "graph": None},
+        {"op": "newNode", "opType": "Id", "name": None, "inputs": [2], "numOutputs": 2, "outputs": None, "graph": 1},
+        {"op": "newNode", "opType": "Id", "name": None, "inputs": [], "numOutputs": None, "outputs": [0], "graph": None},
+        {"op": "newGraph", "inputs": [2], "outputs": [2], "nodes": [], "inits": []},
+        {"op": "newGraph", "inputs": [2], "outputs": [0], "nodes": [], "inits": []},
+        {"op": "rauwMany", "vs": [3, 4], "rs": [2, 2], "rgo": True},
+        {"op": "renameValues", "vs": [1, 2], "names": ["c", "b"]},
+        {"op": "renameValues", "vs": [1, 0], "names": ["a", "b"]},
+        {"op": "renameValues", "vs": [1, 2], "names": ["", "b"]},
+        {"op": "replaceNodesAndValues", "g": 0, "ip": 0, "oldNodes": [1], "newNodes": [2], "oldVals": [4], "newVals": [5]},
+    ]
+    return A
+
+
+def _exh_worker(args):
+    tails = args
+    part = Part()
+    hist = []
+    for tail in tails:
+        hist.append(run_one(random.Random(0), 0, part, fixed_ops=PRELUDE + tail))
+    compare_with_model(part, hist)
+    return part
+
+
+def run_exhaustive(ctx, prop: str, depth: int, reduced: bool, procs: int = 16) -> str:
+    """All histories PRELUDE + (<= depth calls of the small alphabet). Returns the scope description."""
+    import itertools
+
+    A = small_alphabet(reduced)
+    tails: list[list[dict]] = [[]]
+    for d in range(1, depth + 1):
+        tails += [list(t) for t in itertools.product(A, repeat=d)]
+    chunk = max(1, len(tails) // (procs * 8))
+    jobs = [tails[i : i + chunk] for i in range(0, len(tails), chunk)]
+    for part in pmap(_exh_worker, jobs, procs):
+        split_failures(part, prop)
+        ctx.merge(part)
+    return (
+        f"all {len(tails)} histories made of the fixed 9-call prelude (6 values, 3 nodes, 2 graphs) followed by "
+        f"<= {depth} calls from a fixed alphabet of {len(A)} calls (every mutator, valid and invalid arguments)"
+    )
 
 
 def replay_ops(ctx, prop: str, ops: list) -> None:
